@@ -943,6 +943,28 @@ def semiring_ops(cases):
                     r = sr.one()
                 elif op == "zero":
                     r = sr.zero()
+                elif op == "expr":
+                    def ev(e):
+                        if e["op"] == "leaf":
+                            return conv_in(sr, name, e["q"])
+                        args = [ev(x) for x in e["a"]]
+                        return getattr(sr, e["op"])(*args)
+                    r = ev(c["x"])
+                elif op in ("wide_plus", "wide_times"):
+                    def wide_in(w):
+                        if name == "log":
+                            return math.log(w[0] / w[1]) - w[2] * math.log(10.0)
+                        v = (w[0] / w[1]) * 10.0 ** (-w[2])
+                        return v if name == "prob" else repr(v)
+                    r = getattr(sr, op[5:])(wide_in(c["wa"]), wide_in(c["wb"]))
+                    # reported in log space (the magnitudes do not fit the float range after exp for large exponents)
+                    if name == "log":
+                        lv = float(r)
+                    else:
+                        fv = float(r) if name == "prob" else float(eval(str(r), {"__builtins__": {}}, {}))
+                        lv = math.log(fv) if fv > 0 else float("-inf")
+                    res[name] = {"ok": 1, "v": 0.0, "logv": lv if lv != float("-inf") else -1e308}
+                    continue
                 res[name] = {"ok": 1, "v": conv_out(name, r)}
                 if op == "one":
                     res[name]["is_one"] = bool(sr.is_one(r))
@@ -1159,8 +1181,76 @@ def print_parse(cases):
                 raise ValueError("parsed into %d clauses" % len(cl))
             return cl[0]
         return Term.from_string(txt)
+    from problog.logic import Constant, Var, And, Or, Not
+
+    def kind(x):
+        if x is None or isinstance(x, (int, Var)):
+            return "var"
+        if isinstance(x, Constant):
+            v = x.functor
+            if isinstance(v, str):
+                return "string"
+            return ("neg" if v < 0 else "") + ("int" if isinstance(v, int) else "float")
+        if x.arity == 0:
+            f = str(x.functor)
+            return "atom[]" if f == "[]" else ("qatom" if f[:1] == "'" else "atom")
+        if x.functor == "." and x.arity == 2:
+            y = x
+            while isinstance(y, Term) and y.functor == "." and y.arity == 2:
+                y = y.args[1]
+            return "list" if (isinstance(y, Term) and y.functor == "[]" and y.arity == 0) else "plist"
+        if getattr(x, "op_spec", None) is None and not isinstance(x, (And, Or, Not)):
+            return "cmp"                       # an ordinary compound: neither name nor arity matter to the printer
+        return "%s/%d" % (str(x.functor).strip("'"), x.arity)
+
+    def fails(sub):
+        try:
+            a = T.from_problog(sub, {})
+            b = T.from_problog(Term.from_string(str(sub)), {})
+            return a != b
+        except T.TooLarge:
+            return False
+        except Exception:
+            return True
+
+    def min_failing_shape(t):
+        """shape (root kind, child kinds) of a smallest subterm whose own print / re-parse round trip fails"""
+        best = None
+        stack = [(t, 0)]
+        order = []
+        while stack:
+            x, d = stack.pop()
+            if isinstance(x, Term) and not (x is None) and x.arity > 0:
+                order.append((d, x))
+                for a in x.args:
+                    stack.append((a, d + 1))
+        for d, x in sorted(order, key=lambda p: -p[0]):       # deepest first
+            if fails(x):
+                best = x
+                break
+        if best is None:
+            return ""
+        # culprit edges: keep one argument, replace every other argument by a plain atom; if the round trip still fails
+        # the edge (root, position, kind of that argument) is a cause by itself
+        edges = []
+        for i, a in enumerate(best.args):
+            args = [Term("zz") for _ in best.args]
+            args[i] = a
+            try:
+                if fails(best.with_args(*args)):
+                    e = "%s@%s:%s" % (kind(best), "*" if kind(best) == "cmp" else i + 1, kind(a))
+                    if e not in edges:
+                        edges.append(e)
+            except Exception:
+                pass
+        if edges:
+            return "|".join(edges)
+        return "%s(%s)" % (kind(best), ",".join(kind(a) for a in best.args))
+
+    T.EXACT_NUMBERS = True
     for c in cases:
         r = {"id": c["id"], "stage": "parse1"}
+        t1 = None
         try:
             try:
                 t1 = parse(c["text"], c.get("clause"))
@@ -1175,6 +1265,13 @@ def print_parse(cases):
             except ProbLogError as e:
                 r["ok"] = 2
                 r["err"] = "%s: %s" % (type(e).__name__, str(e)[:100])
+            except ValueError as e:
+                # Term.from_string's own complaint: the text is a clause / several statements, not one term
+                if str(e).startswith("Invalid term"):
+                    r["ok"] = 2
+                    r["err"] = "text is not one term: %s" % str(e)[:100]
+                else:
+                    raise
         except T.TooLarge:
             r["skip"] = 1
         except Exception as e:
@@ -1182,6 +1279,11 @@ def print_parse(cases):
             r["crash"] = "%s: %s" % (type(e).__name__, str(e)[:150])
             r["site"] = site
             r["error"] = type(e).__name__
+        if t1 is not None and (r.get("ok") != 1 or r.get("first") != r.get("back")):
+            try:
+                r["shape"] = min_failing_shape(t1)
+            except Exception as e:
+                r["shape"] = "?%s" % type(e).__name__
         out.append(r)
     return {"results": out}
 
